@@ -499,7 +499,7 @@ def main():
             flush_exc = None
             try:
                 try:
-                    with trace_calls(logger, rnd.choice([0, 2]), lambda code: code.co_name == "bump" or code.co_filename == this_file
+                    with trace_calls(logger, rnd.choice([0, 2]), lambda code: code.co_name in ("bump", "lone") or code.co_filename == this_file
                                      and code.co_name in ("ident", "pair", "takes_container", "gen_of", "meth", "prop",
                                                           "named_like_a_global", "outer_with_closure", "local_fn", "smeth", "gen_abandoned",
                                                           "takes_lone")):
@@ -509,6 +509,10 @@ def main():
                             from harness import tripwire_aux
                             for _i in range(5200):
                                 tripwire_aux.bump(_i)
+                            # a traced call OUTSIDE __main__ with a plain instance whose class has metaclass-level
+                            # hashing / equality: buffering its trace gives the logger no occasion to hash or compare it
+                            tripwire_aux.lone(Lone())
+                            tripwire_aux.lone(Lone())
                         if "hot_section" in fault:
                             # the traced block switches profiling off itself (a hot section) or installs its own profiler
                             # and does not put the tracer back: the context must still restore the previous one
